@@ -21,6 +21,13 @@ def run(ctx):
     else:
         base = c05.scenarios(ctx, stride_q=1, nsim_q=150)
         scen = [{"expr": s["expr"]} for s in base if boolean_only(s["expr"])]
+        # unions DECLARED disjoint and cuts DECLARED contained (the declaration is verified by TLC in Gen_Attr): the boundary objects
+        # may take another path when the flag is set
+        flagged = [{"expr": s["expr"]} for s in ctx.gen("Gen_Attr", "Gen_Attr_vol", timeout=900)
+                   if s["expr"]["k"] in ("union", "cut") and (s["expr"].get("disjoint") or s["expr"].get("contained"))]
+        seen = set()
+        flagged = [s for s in flagged if not (json.dumps(s, sort_keys=True) in seen or seen.add(json.dumps(s, sort_keys=True)))]
+        scen += flagged if not ctx.quick else ctx.stratified(flagged, 0.5, key=lambda s: geo_sig(s["expr"], False))
         if ctx.quick:
             prim = [s for s in scen if s["expr"]["k"] not in ("union", "cut", "and")]
             rest = [s for s in scen if s["expr"]["k"] in ("union", "cut", "and")]
